@@ -41,8 +41,15 @@ def bat_index_sb(spec, chunk):
     return (chunk + 1) * cr + chunk
 
 
+def _norm(spec):
+    if isinstance(spec.get("states"), dict):
+        spec = dict(spec, states=_Sparse(spec["states"], 0, spec["nblocks"]), slots=_Sparse(spec["slots"], 0, spec["nblocks"]))
+    return spec
+
+
 def layout(spec, layer=0):
     """list of (offset, bytes | (length, fn))"""
+    spec = _norm(spec)
     ss, bs, n = spec["ss"], spec["bs"], spec["nblocks"]
     cr = chunk_ratio(spec)
     has_parent = bool(spec.get("parent"))
@@ -87,20 +94,29 @@ def layout(spec, layer=0):
     out.append((meta_off, mh + table))
     out.append((meta_off + data_off, blob))
     # BAT
-    bat = bytearray(entries * 8)
-    for b in range(n):
+    sparse = isinstance(spec["states"], (_Sparse, dict))
+    blocks = sorted(int(k) for k in (spec["states"].d if isinstance(spec["states"], _Sparse) else spec["states"])) if sparse else range(n)
+    bat = {} if sparse else bytearray(entries * 8)
+    for b in blocks:
         st = spec["states"][b]
         off = base + spec["slots"][b] if st >= 6 else 0
-        struct.pack_into("<Q", bat, bat_index_pb(spec, b) * 8, (off << 20) | st)
+        if sparse:
+            bat[bat_index_pb(spec, b) * 8] = struct.pack("<Q", (off << 20) | st)
+        else:
+            struct.pack_into("<Q", bat, bat_index_pb(spec, b) * 8, (off << 20) | st)
     for ch_s, mboff in spec.get("sb_slots", {}).items():
         idx = bat_index_sb(spec, int(ch_s))
         if idx * 8 + 8 <= len(bat):
             struct.pack_into("<Q", bat, idx * 8, ((base + mboff) << 20) | 6)
-    nz = [i for i in range(0, len(bat), 8) if bat[i:i + 8] != b"\x00" * 8]
-    for i in nz:  # sparse: only the non-zero entries (differencing files with tiny blocks have a chunk ratio of millions)
-        out.append((bat_off + i, bytes(bat[i:i + 8])))
+    if sparse:
+        for i, v in bat.items():
+            out.append((bat_off + i, v))
+    else:
+        nz = [i for i in range(0, len(bat), 8) if bat[i:i + 8] != b"\x00" * 8]
+        for i in nz:  # only the non-zero entries (differencing files with tiny blocks have a chunk ratio of millions)
+            out.append((bat_off + i, bytes(bat[i:i + 8])))
     spb = bs // ss
-    for b in range(n):
+    for b in blocks:
         st = spec["states"][b]
         if st >= 6:
             out.append(((base + spec["slots"][b]) * MB, (bs, (lambda start, cnt, b=b: pattern_bytes(layer, b, start, cnt)))))
@@ -150,6 +166,7 @@ def write_disk(spec, path, layer=0):
 
 def guest_bytes(spec, off, n, layer=0):
     """guest bytes [off, off+n) (off+n <= size)"""
+    spec = _norm(spec)
     ss, bs = spec["ss"], spec["bs"]
     spb = bs // ss
     out = bytearray()
@@ -260,6 +277,30 @@ def gen_specs(rng: random.Random, n, hints=None):
                 par["parent"] = _mk(rng, ss, bs, nb, sp["size"], False)
         out.append(sp)
     return out
+
+
+def big_specs():
+    """C13: payload blocks at file offsets beyond 2^32 bytes, beyond 1 TiB (FileOffsetMB >= 2^20) and at 40 TiB; 64 TiB virtual size"""
+    bs = 1 << 25
+    n = 1 << 21
+    states = {0: 6, 3: 6, 7: 6, 1000: 6, n - 1: 6}
+    slots = {0: 4, 3: 96, 7: (1 << 20) + 96, 1000: (2 << 20) + 4096, n - 1: 40 << 20}
+    sp = {"ss": 512, "bs": bs, "nblocks": n, "size": n * bs, "states": {str(k): v for k, v in states.items()}, "slots": {str(k): v for k, v in slots.items()}, "seq": [3, 9]}
+    sp["requests"] = [[b * bs + o, ln] for b in (0, 3, 7, 1000, n - 1) for o, ln in ((0, 4096), (bs - 1000, 900), (12345, 70000))] + [[5 * bs, 8192]]
+    return [sp]
+
+
+class _Sparse:
+    """list-like with a default (keeps a 2^21-entry table out of memory and out of the JSON job)"""
+
+    def __init__(self, d, default, n):
+        self.d, self.default, self.n = {int(k): v for k, v in d.items()}, default, n
+
+    def __getitem__(self, i):
+        return self.d.get(int(i), self.default)
+
+    def __len__(self):
+        return self.n
 
 
 def requests(spec, rng, limit=40):
